@@ -265,6 +265,7 @@ impl Session {
 
 /// Replay a key sequence on a fresh session; panics are caught by the caller.
 fn replay(keys: &[K]) -> Result<Session, (String, String)> {
+    mc::watch::progress(|| keys_line(keys, 76, 28));
     let mut s = Session::new();
     for k in keys {
         s.press(*k)?;
@@ -517,7 +518,7 @@ pub fn run() {
     let quick = ctx.quick();
     let mut bad = Bad::new();
     // ---- editor BFS ----
-    let depth = if quick { 4 } else { 5 };
+    let depth = if quick { 4 } else { 6 };
     let (states, transitions, digests, all_states) = editor_bfs(depth, &mut bad);
     // ---- rendering of every distinct editor state at many sizes ----
     let step = if quick { (all_states.len() / 400).max(1) } else { (all_states.len() / 6000).max(1) };
